@@ -56,7 +56,7 @@ func (fakeTLSConn) ConnectionState() tls.ConnectionState { return tls.Connection
 
 type c10Obs struct {
 	IP, Host, Hostname, Scheme, BaseURL string
-	Secure, Trusted                    bool
+	Secure, Trusted                     bool
 }
 
 func TestC10(t *testing.T) {
